@@ -286,12 +286,17 @@ func (bc *boundCtx) checkedOnPath(v ssa.Value, at ssa.Instruction) bool {
 		}
 	}
 	// v <= K / v > K -> fail
-	upper := core.CondEdges(fn, false, func(cond ssa.Value) (bool, bool) {
+	upper := core.PredEdges(fn, false, func(cond ssa.Value) (bool, bool) {
 		bo, ok := cond.(*ssa.BinOp)
 		if !ok {
 			return false, false
 		}
-		if _, okc := core.ConstInt(bo.Y); okc && vs(bo.X) {
+		// inside a boolean helper of the package (validColumns(n)) the tested value is its parameter
+		inHelper := func(x ssa.Value) bool {
+			pr, isP := stripConv(x).(*ssa.Parameter)
+			return isP && pr.Parent() != fn
+		}
+		if _, okc := core.ConstInt(bo.Y); okc && (vs(bo.X) || inHelper(bo.X)) {
 			switch bo.Op {
 			case token.GTR, token.GEQ:
 				return true, true
